@@ -1,6 +1,7 @@
 package main
 
 import (
+	"go/types"
 	"sort"
 	"strings"
 
@@ -493,8 +494,35 @@ func ruleC25(c *Ctx) {
 		}
 		c.Require("fieldinit", fname(tout)+": every output of a coinbase transaction gets ValidHeight = height + maturity", n == 1 && bad == "", "%d computation(s) %s", n, bad)
 		okv := len(callsTo(tout, false, "consensus.VotePendingBlockNums")) == 1
+		// every UTXO literal built here gets its ValidHeight (one literal per output kind, or one shared
+		// literal fed from per-kind locals — either way none may be left at zero)
 		nv := len(c.writersOfIn(tout, "account.UTXO", "ValidHeight"))
-		c.Require("fieldinit", fname(tout)+": original and vote outputs both record ValidHeight; vote outputs add the vote lock", okv && nv >= 2, "%d ValidHeight store(s)", nv)
+		nlit, nset := 0, 0
+		for _, b := range tout.Blocks {
+			for _, in := range b.Instrs {
+				al, isA := in.(*ssa.Alloc)
+				if !isA {
+					continue
+				}
+				if pt, isP := al.Type().Underlying().(*types.Pointer); !isP || trimMod(pt.Elem().String()) != "account.UTXO" {
+					continue
+				}
+				nlit++
+				for _, r := range *al.Referrers() {
+					if fa, isFA := r.(*ssa.FieldAddr); isFA {
+						if _, fld, _ := fieldOf(fa); fld == "ValidHeight" {
+							for _, r2 := range *fa.Referrers() {
+								if st, isSt := r2.(*ssa.Store); isSt && st.Addr == ssa.Value(fa) {
+									nset++
+									break
+								}
+							}
+						}
+					}
+				}
+			}
+		}
+		c.Require("fieldinit", fname(tout)+": original and vote outputs both record ValidHeight; vote outputs add the vote lock", okv && nv >= 1 && nlit >= 1 && nset >= nlit, "%d UTXO literal(s), %d with ValidHeight, %d ValidHeight store(s)", nlit, nset, nv)
 	}
 	// filters
 	fu := c.Func("account", "(*utxoKeeper).findUtxos")
